@@ -205,7 +205,10 @@ def run(ctx):
         "with known randomness byte-identical to the TLA+ KeyGen_internal/Sign_internal; hedged and prehash signatures verified by the "
         "TLA+ Verify; Verify verdicts on own, mutated (every section, lengths, hint encodings, z coefficients on the bound), modified "
         "message/public key and crafted boundary signatures (||z|| = gamma1-beta and -1, r0 on its bound, exactly omega hints) equal the "
-        "reference's; composite ML-DSA (Ed25519, ECDSA) accepts iff both components verify.")
+        "reference's; composite ML-DSA (Ed25519, ECDSA) accepts iff both components verify. Buffers are treated adversarially: inputs "
+        "are logged from pre-call copies and travel through one driver-owned buffer that is scribbled after every call; verification is "
+        "called twice; signatures, prehashes and encoded keys are copied at return AND retained across later calls on the same "
+        "primitive (3 prehashes first, signed in another order, each verified against its own message) - both values are judged.")
     ctx.assumptions += [
         "SHAKE128/256 are the Keccak sponge of spec/prim/jdk/Prim.java (cross-checked against the JDK's SHA3 at class load), independent of Go",
         "Ed25519 / ECDSA component verification of composite keys is the primitive layer's (JDK), see C03",
